@@ -172,7 +172,11 @@ def run(ctx):
             if r["accepted"] and m["s"] != 0.0:
                 dp = float(np.dot(np.array(c["mass"]) * (r["v"] - np.array(c["v"])), np.array(c["d"]) / np.linalg.norm(c["d"])))
                 tie_roots = abs(m["b"]) <= 1e-14 * math.sqrt(abs(m["a"] * m["c"]) + 1e-300)
-                if not (close(dp, m["s"], max(abs(m["s"]), 1e-300)) or (tie_roots and close(-dp, m["s"], abs(m["s"])))):
+                # a root next to a double root (gap at the acceptance threshold) is ill-conditioned: its error is
+                # ~sqrt(eps) of its size whatever the root finder; compare with that conditioning, not with 1e-9
+                near_double = abs(m["sbig"] - m["s"]) <= 1e-3 * abs(m["s"])
+                rt = 1e-6 if near_double else 1e-9
+                if not (close(dp, m["s"], max(abs(m["s"]), 1e-300), rtol=rt) or (tie_roots and close(-dp, m["s"], abs(m["s"])))):
                     ctx.corr_mismatch("hop.root", c, "impl scale %r, model root %r (other %r)" % (dp, m["s"], m["sbig"]))
         ok, obs, req, text = oracle_hop_rule({"case": c, "cls": cls})
         if not ok:
